@@ -10,7 +10,8 @@ Step-by-step evaluation of `CnlModel/RoundWrap.lean`:
   a representability hypothesis;
 * `narrowing_eval` — `eS < eD`: the power `2^k` is the defined shift `1 << k` in the promoted type,
   the tagged division of C08 (`Rounding.binOp_div_eval`) returns the correctly rounded quotient, the
-  final `static_cast` reduces it into the destination;
+  final `static_cast` reduces it into the destination; `narrowing_ill` — otherwise the instantiation is
+  ill-formed (`static_assert(0 < divisor)` of `default_scale`, since the repair);
 * `widening_eval` — `eD ≤ eS`: one built-in multiplication by `2^(eS − eD)` in the promoted source
   type (exact if it fits, signed overflow otherwise, modular if unsigned), then the `static_cast`.
 
@@ -120,7 +121,63 @@ theorem narrowing_eval (mode : RdMode) (S D : IntTy) (hS : 1 ≤ S.bits) (eS eD 
     (by omega) (by rw [hT]; exact hq)
   rw [hT, ← roundShift_eq_roundDiv] at hdiv
   have hne : ¬ (eD ≤ eS) := by omega
-  simp only [convert, hne, ite_false, power_eval S hk, Res.bind_ok, hdiv, Res.pure_eq, Cnl.convert]
+  simp only [convert, hne, ite_false, power_eval S hk, hp, ite_true, divideBy, Res.bind_ok, hdiv, Res.pure_eq,
+    Cnl.convert]
+
+/-- `1 << k` for `k` = the digits of a signed promoted type is its most negative number -/
+theorem wrap_two_pow_digits {P : IntTy} (hs : P.signed = true) (hb : 1 ≤ P.bits) :
+    P.wrap (2^P.digits) = -(2^P.digits) := by
+  have hd : P.digits = P.bits - 1 := by unfold IntTy.digits; simp [hs]
+  have hbits : P.bits = (P.bits - 1) + 1 := by omega
+  have hpos := two_pow_pos (P.bits - 1)
+  unfold IntTy.wrap
+  simp only [hs, ite_true, hd]
+  have h2 : (2:Int)^P.bits = 2 * 2^(P.bits - 1) := by
+    have := two_pow_succ (P.bits - 1)
+    rw [← hbits] at this
+    omega
+  rw [h2]
+  generalize (2:Int)^(P.bits - 1) = x at *
+  have : (x + x) % (2 * x) = 0 := by
+    have : x + x = 2 * x := by omega
+    rw [this]; exact Int.emod_self
+  omega
+
+/-- the narrowing conversion is well-formed exactly when `2^k` is representable in the promoted
+representation type: otherwise the divisor is not a constant expression (shift by the width or more) or
+not positive (`1 << digits` of a signed type), and the instantiation does not compile -/
+theorem narrowing_ill (mode : RdMode) (S D : IntTy) (eS eD : Int) (v : Int)
+    (h : eS < eD) (hk : ¬ (eD - eS).toNat < (promote S).digits) :
+    ∃ m, convert mode S eS D eD v = .ill m := by
+  have hpp := promote_promote S
+  have hb := promote_bits_pos S
+  have hne : ¬ (eD ≤ eS) := by omega
+  simp only [convert, hne, ite_false]
+  by_cases hsh : ((((eD - eS).toNat : Nat) : Int) < 0 ∨ (((eD - eS).toNat : Nat) : Int) ≥ (promote S).bits)
+  · simp only [cBin, hpp, hsh, ite_true]
+    exact ⟨_, rfl⟩
+  · -- then k = digits = bits - 1 and the promoted type is signed
+    have hdb := RoundCvtP.digits_le_bits (promote S)
+    have hs : (promote S).signed = true := by
+      apply Decidable.byContradiction; intro hs
+      have : (promote S).digits = (promote S).bits := by unfold IntTy.digits; simp [hs]
+      omega
+    have hd : (promote S).digits = (promote S).bits - 1 := by unfold IntTy.digits; simp [hs]
+    have hkd : (eD - eS).toNat = (promote S).digits := by omega
+    have hpos := two_pow_pos (promote S).digits
+    have hw := wrap_two_pow_digits hs hb
+    have hnp : ¬ (0 < -((2:Int)^(promote S).digits)) := by omega
+    rw [hkd] at hsh ⊢
+    simp only [cBin, hpp, hsh, ite_false, Int.toNat_natCast, Int.one_mul, hw, hnp]
+    exact ⟨_, rfl⟩
+
+/-- where it is well-formed the repaired conversion is the conversion as found -/
+theorem narrowing_orig_eq (mode : RdMode) (S D : IntTy) (eS eD : Int) (v : Int)
+    (h : eS < eD) (hk : (eD - eS).toNat < (promote S).digits) :
+    convertOrig mode S eS D eD v = convert mode S eS D eD v := by
+  have hne : ¬ (eD ≤ eS) := by omega
+  have hp := two_pow_pos (eD - eS).toNat
+  simp only [convert, convertOrig, hne, ite_false, power_eval S hk, Res.bind_ok, hp, ite_true]
 
 /-! ## widening: one multiplication in the promoted source type -/
 
